@@ -124,3 +124,12 @@ package store
 // was given (reads return the last value written): no shortcut decides that the stored record is
 // "already the same"
 //@   ensures [writes-the-given-state] err == nil ==> put.count == 1 && put.res0 == nil && tp.count == 1 && ma.count == 1 && ma.res1 == nil && put.arg3 == ma.res0 && ma.arg0.val == tp.res0
+
+// GetState decodes exactly the record UpdateState writes
+//@ func (s *DefaultStore) GetState(ctx) (state, err)
+//@   property C14 C01 C02 C04 C05
+//@   requires [wiring] s.db != nil
+//@   observe ge := call Get
+//@   observe um := call Unmarshal
+//@   observe fp := call FromProto
+//@   ensures [reads-the-record] err == nil ==> ge.count == 1 && ge.res1 == nil && ge.arg2.string == dskey(KeyState()) && um.count == 1 && um.arg0 == ge.res0 && fp.count == 1 && fp.res0 == nil && fp.arg1 == um.arg1.val
